@@ -197,6 +197,13 @@ Rule(e) ==
       [] e.op = "rem_prim" -> IsTruncDivRem(A(e, 1), A(e, 2), Adopt(e.hint[1]), SCV(e.ret.z[1]))
       [] e.op = "sum" -> PostIs1(e, FoldLeft(LAMBDA acc, k: ZAdd(acc, S(e, k)), ZZero, [k \in 1..Len(e.src) |-> k]))
       [] e.op = "product" -> PostIs1(e, FoldLeft(LAMBDA acc, k: ZMul(acc, S(e, k)), ZOne, [k \in 1..Len(e.src) |-> k]))
+      [] e.op = "obs" ->
+            LET x == S(e, 1)  y == S(e, 2)  c == ZCmp(x, y) IN
+            /\ e.ret.b = (c = 0) /\ e.ret.ne = (c # 0)
+            /\ e.ret.n = c /\ e.ret.pc = c
+            /\ e.ret.lt = (c < 0) /\ e.ret.ge = (c >= 0)
+            /\ e.ret.maxb = (c <= 0)                      \* max(x, y) is y unless x > y (equal values are the same integer)
+            /\ (c = 0 => e.ret.ha = e.ret.hb)             \* equal values hash identically; nothing is asked of unequal ones
       [] e.op = "is_multiple_of" ->
             LET a == A(e, 1)  b == A(e, 2)  q == Adopt(e.hint[1])  r == ZSub(a, ZMul(q, b)) IN
             IF b.s = 0 THEN e.ret.b = (a.s = 0)
@@ -211,8 +218,10 @@ Reason(e) ==
     ELSE IF IsChecked(e) /\ ~e.ret.some THEN (IF Fails(e) THEN "ok" ELSE "unexpected_none")
     ELSE IF Fails(e) THEN "missing_failure"
     ELSE IF ~Rule(e) THEN "value"
-    ELSE IF ~AllPostCanon(e) THEN "noncanon"
     ELSE "ok"
+\* representation rule, judged independently of the value rule: every register written by a call that
+\* returned normally is in canonical form (no high zero digit, NoSign exactly for zero)
+NonCanon(e) == e.out = "ok" /\ ~AllPostCanon(e)
 
 ----------------------------------------------------------------------------
 \* what a register holds after the event: the logged value, made canonical so
@@ -230,6 +239,7 @@ Step ==
                           IF k = 0 THEN regs[r]
                           ELSE IF e.out = "ok" /\ k <= Len(e.post) THEN Adopt(e.post[k]) ELSE ZZero]
             /\ LET why == Reason(e) IN IF why = "ok" THEN TRUE ELSE PrintT(<<"BAD", l, e.op, e.form, why>>)
+            /\ IF NonCanon(e) THEN PrintT(<<"BAD", l, e.op, e.form, "noncanon">>) ELSE TRUE
     /\ l' = l + 1
 
 Spec == Init /\ [][Step]_vars
